@@ -21,10 +21,17 @@ def job(args):
     name, d, theta, x0, t0, seed = args
     out = {"name": name, "viol": [], "runs": 0, "nontrivial": 0, "skipped": None}
     from pygom.model import ode_utils
+    # an initial state of whole numbers may be handed over integer-typed (head counts): name ends in "/int-array" or "/int-list"
+    if name.endswith("/int-array"):
+        x0_in = lambda: np.array(x0, dtype=int)
+    elif name.endswith("/int-list"):
+        x0_in = lambda: [int(v) for v in x0]
+    else:
+        x0_in = lambda: np.array(x0, float)
     try:
         m, _ = build.build(d)
         m.parameters = list(theta)
-        m.initial_values = (np.array(x0, float), t0)
+        m.initial_values = (x0_in(), t0)
     except Exception as e:
         out["skipped"] = "build: %s" % e
         return out
@@ -33,7 +40,7 @@ def job(args):
     def refsol(times):
         key = tuple(np.atleast_1d(np.asarray(times, float)).tolist())
         if key not in refcache:
-            cat = name if name in detmodels.CATALOGUE else None
+            cat = name.split("/")[0] if name.split("/")[0] in detmodels.CATALOGUE else None
             refcache[key] = detmodels.reference_solution(cat, theta, x0, t0, list(key), d=d)
         return refcache[key]
 
@@ -85,7 +92,7 @@ def job(args):
                     out["viol"].append({"entry": "integrate2", "grid": gname, "what": "raised", "detail": {"error": "%s: %s" % (type(e).__name__, e), "method": meth, "full_output": fo}})
                 for origin in (False, True):
                     try:
-                        r = ode_utils.integrateFuncJac(m.ode_T, m.jacobian_T, np.array(x0, float), t0, gfn(),
+                        r = ode_utils.integrateFuncJac(m.ode_T, m.jacobian_T, x0_in(), t0, gfn(),
                                                        includeOrigin=origin, full_output=fo, method=meth)
                         sol = r[0] if fo else r
                         judge("integrateFuncJac(method=%s, full_output=%s, includeOrigin=%s)" % (meth, fo, origin), gname, g, sol, origin, 1e-6)
@@ -171,6 +178,12 @@ def main(argv=None):
                 continue
             for t0 in (0.0, 0.5):
                 jobs.append((nme, c["d"], th, x0, t0, run.seed))
+    # whole-number initial states handed over integer-typed
+    for nme, kind in (("Lotka_Volterra", "int-array"), ("Chain3", "int-list")) if quick else \
+            (("Lotka_Volterra", "int-array"), ("Chain3", "int-list"), ("SEIR", "int-array"), ("Logistic", "int-list"), ("Asym23", "int-array")):
+        c = detmodels.CATALOGUE[nme]
+        xi = [float(max(1, round(v * (10 if max(c["x0"][0]) <= 1 else 1)))) for v in c["x0"][0]]
+        jobs.append((nme + "/" + kind, c["d"], c["theta"][0], xi, 0.5, run.seed))
     from mc import stoch
     for nme, d in generated_models(2 if quick else 4):
         ns = len(d["states"])
@@ -194,7 +207,7 @@ def main(argv=None):
     run.sample({"model": jobs[-1][0], "theta": jobs[-1][2], "x0": jobs[-1][3], "t0": jobs[-1][4], "entry": "integrate2(method=dop853, full_output=True)", "grid": "int-array"})
     run.cov.update({
         "evaluations": runs, "distinct_nontrivial": nt,
-        "rule": "%d model/parameter/initial-time configurations (catalogue %s + generated bounded-rate models; t0 in {0, 0.5}) x grids %s x "
+        "rule": "%d model/parameter/initial-time configurations (catalogue %s + generated bounded-rate models; t0 in {0, 0.5}; whole-number initial states also integer-typed) x grids %s x "
                 "{integrate, solve_determ, integrate2(method), integrateFuncJac(method, includeOrigin)} x methods %s x full_output: every "
                 "combination executed; shape, first row, and every row within 1e-6(1+|x|) (2e-5 for the odeint based entries) of the closed "
                 "form or of DOP853(1e-12) on the reference right-hand side. history leg: solve A, add a death process to A with add_event, "
